@@ -102,7 +102,7 @@ PROPS['C18'] = dict(
 )
 
 PROPS['C20'] = dict(
-    unit_modules=[], driver_modules=['drivers.c20'], level='other',
+    unit_modules=['contracts.c20_financial'], driver_modules=['drivers.c20'], level='other',
     level_text='tbd', level_note='tbd', assumptions=COMMON_ASSUMPTIONS,
 )
 
